@@ -14,7 +14,14 @@ RULE = ("(a) unit correspondence: for generated configurations (base claims, alw
         "released claims); (b) end-to-end oracle: real flows on providers with those configurations; the attributes found in userinfo, "
         "ID Token, introspection and JWT access token must lie within the bound recomputed from configuration + token scopes + claims "
         "request; invalid / foreign-audience tokens release nothing; the same flow on a long-lived provider and on a fresh provider "
-        "releases the same. A case is non-trivial when at least one user attribute is released.")
+        "releases the same; (c) the token's OWN scope: the unit correspondence also calls get_claims_from_request with a scopes argument "
+        "that differs from the scope of the authorization request (a subset, an unrelated list, None = fall back to the request's), and "
+        "on real providers with generated release configurations access tokens whose scope is narrower than their grant's (refresh with "
+        "a narrower scope, refresh of such a refresh, refresh without scope afterwards, down-scoping token exchange, exchange of an "
+        "already down-scoped token) are PRESENTED to userinfo and introspection, their JWT claims and the ID Tokens minted with them "
+        "are decoded: the attributes must lie within the bound recomputed from configuration + the scope of the presented token + "
+        "claims request, and equal (as a set) what the model's release_tok computes for that token scope. "
+        "A case is non-trivial when at least one user attribute is released.")
 ASSUMPTIONS = ["the user database (users.json) is an arbitrary function user -> attributes", "JSON floats do not occur in the fixture data"]
 
 POINTS = ["userinfo", "id_token", "introspection", "access_token"]
@@ -73,7 +80,7 @@ def gen_spec(rng, user_vals, claim):
     return {"essential": True, "value": val if rng.random() < 0.5 else "other"}
 
 
-def unit_cases(ctx, rng, n):
+def unit_cases(ctx, rng, n, tok=False):
     from idpyoidc.server.scopes import SCOPE2CLAIMS
     server = srv.make_server(clients=("client_1",))
     cctx = server.context
@@ -119,17 +126,33 @@ def unit_cases(ctx, rng, n):
                 crec["scopes_to_claims"] = cmap
             scopes = rng.sample(list(SCOPE2CLAIMS.keys()) + ["custom", "unknown"], rng.randint(0, 5))
             req = {c: gen_spec(rng, uvals, c) for c in rng.sample(CLAIMS, rng.randint(0, 3))}
-            auth_req = {"client_id": "client_1", "scope": scopes}
+            gscope, tscope = scopes, (scopes or None)
+            if tok:
+                # the scopes argument (the TOKEN's scope) is not the scope of the authorization request (the GRANT's)
+                gscope = scopes
+                r = rng.random()
+                if r < 0.2:
+                    tscope = None                                   # no token scope handed in: the request's scope counts
+                elif r < 0.7:
+                    tscope = [x for x in gscope if rng.random() < 0.5]     # a down-scoped token (possibly no scope left)
+                else:
+                    tscope = rng.sample(list(SCOPE2CLAIMS.keys()) + ["custom", "unknown"], rng.randint(0, 4))
+                scopes = gscope if tscope is None else tscope       # what the oracle below has to go by
+            auth_req = {"client_id": "client_1", "scope": gscope}
             if req or rng.random() < 0.3:
                 auth_req["claims"] = {point: req}
-            restriction = ci.get_claims_from_request(auth_req, point, scopes=scopes or None, client_id="client_1", secondary_identifier=sec)
+            restriction = ci.get_claims_from_request(auth_req, point, scopes=tscope, client_id="client_1", secondary_identifier=sec)
             released = ci.get_user_claims(uid, restriction, "client_1")
             rec = {"point": point, "secondary": sec, "scopes": scopes, "request_claims": req, "restriction": restriction,
+                   "grant_scope": gscope, "token_scope": tscope,
                    "released": released, "module": {"base": base, "always": always, "by_scope": by_scope, "per_client": per_client},
                    "client": {"by_scope": c_by_scope, "always": c_always, "allowed": allowed, "scope_map": bool(cmap)}, "user": uid}
             ctx.case_seen(rec, bool(released))
             ctx.count("point:" + point)
             ctx.count("released:%d" % min(len(released), 3))
+            if tok:
+                ctx.count("unit-token-scope:%s" % ("none" if tscope is None else "equal" if set(tscope) == set(gscope) else
+                                                   "narrower" if set(tscope) < set(gscope) else "other"))
             if any(isinstance(v, float) for v in uvals.values()):
                 ctx.unmodelled += 1
                 continue
@@ -158,15 +181,24 @@ def unit_cases(ctx, rng, n):
             cl_t = "(Some (mkClient %s %s %s %s))" % (cbs, cal, "None" if allowed is None else "(Some %s)" % coq_list([coq_str(x) for x in allowed], "pystr"),
                                                      "None" if cmap is None else "(Some %s)" % coq_scope_map(cmap))
             ui_t = coq_list(["(%s, %s)" % (coq_str(k), coq_pyval(v)) for k, v in uvals.items()], "(pystr * pyval)")
+            if tok:
+                sc_t = "%s, %s" % ("None" if tscope is None else "(Some %s)" % coq_list([coq_str(x) for x in tscope], "pystr"),
+                                   coq_list([coq_str(x) for x in gscope], "pystr"))
+            else:
+                sc_t = coq_list([coq_str(x) for x in scopes], "pystr")
             term = "(%s, %s, %s, %s, %s, %s, %s, %s, %s, %s)" % (
-                coq_scope_map(SCOPE2CLAIMS), mod_t, cl_t, coq_str(point), coq_str(sec), coq_list([coq_str(s) for s in scopes], "pystr"),
+                coq_scope_map(SCOPE2CLAIMS), mod_t, cl_t, coq_str(point), coq_str(sec), sc_t,
                 coq_restriction(req), ui_t, coq_restriction(restriction),
                 coq_list(["(%s, %s)" % (coq_str(k), coq_pyval(v)) for k, v in released.items()], "(pystr * pyval)"))
             cases.append((term, rec))
         finally:
             mod.kwargs.clear()
             mod.kwargs.update(saved)
-    ctx.coq_check_cases(["Lib.Base", "Lib.PyStr", "Model.Claims"], "claims_case", "chk_claims", cases, shard=120, label="claims", diag="diag_claims")
+    if tok:
+        ctx.coq_check_cases(["Lib.Base", "Lib.PyStr", "Model.Claims"], "claims_tok_case", "chk_claims_tok", cases, shard=120, label="claims_tok",
+                            diag="diag_claims_tok")
+    else:
+        ctx.coq_check_cases(["Lib.Base", "Lib.PyStr", "Model.Claims"], "claims_case", "chk_claims", cases, shard=120, label="claims", diag="diag_claims")
 
 
 def jwt_payload(tok):
@@ -341,6 +373,238 @@ def exchange_policy(ctx, rng):
             rs.close()
 
 
+def release_bound(server, point, client, token_scope, claims_param):
+    """The property's bound for one release point, recomputed from the provider's current configuration, the scope of the
+    PRESENTED token and the claims parameter: base claims + always-add claims (the release point's, or the client's own when
+    per-client claims are enabled) + - when scope-derived claims are on for this point - the claims mapped for that client
+    from those scopes of the token that the client is allowed + the claims requested for this point."""
+    mod = module_of(server, point)
+    cctx = server.context
+    crec = cctx.cdb[client]
+    b = set(mod.kwargs.get("base_claims") or {})
+    by_scope = bool(mod.kwargs.get("add_claims_by_scope"))
+    if mod.kwargs.get("enable_claims_per_client"):
+        add = crec.get("add_claims") or {}
+        b |= set((add.get("always") or {}).get(point) or [])
+        if (add.get("by_scope") or {}).get(point) is not None:
+            by_scope = bool(add["by_scope"][point])
+    else:
+        b |= set(mod.kwargs.get("always_add_claims") or [])
+    if by_scope:
+        the_map = crec.get("scopes_to_claims") or cctx.scopes_handler._scopes_to_claims
+        allowed = crec.get("allowed_scopes")
+        if allowed is None:
+            allowed = list(cctx.scopes_handler._scopes_to_claims.keys())
+        for sc in token_scope:
+            if sc in allowed:
+                b |= set(the_map.get(sc, []))
+    b |= set((claims_param or {}).get(point) or {})
+    return b
+
+
+def coq_release_config(server, point, client):
+    """the release configuration of one point and one client as the model's (scope_map, module_cfg, option client_cfg)"""
+    mod = module_of(server, point)
+    cctx = server.context
+    crec = cctx.cdb[client]
+    always = mod.kwargs.get("always_add_claims")
+    always_t = "None" if always is None else ("(Some (AList %s))" % coq_list([coq_str(x) for x in always], "pystr") if isinstance(always, list)
+                                              else "(Some (ADict %s))" % coq_restriction(always))
+    mod_t = "(mkModule %s %s %s %s)" % (coq_restriction(mod.kwargs.get("base_claims") or {}), coq_bool(bool(mod.kwargs.get("add_claims_by_scope"))),
+                                        always_t, coq_bool(bool(mod.kwargs.get("enable_claims_per_client"))))
+    add = crec.get("add_claims") or {}
+    cbs = add.get("by_scope")
+    cbs_t = "None" if cbs is None else "(Some %s)" % coq_list(["(%s, %s)" % (coq_str(k), coq_bool(v)) for k, v in cbs.items()], "(pystr * bool)")
+    cal_t = coq_list(["(%s, %s)" % (coq_str(k), coq_list([coq_str(x) for x in v], "pystr")) for k, v in (add.get("always") or {}).items()],
+                     "(pystr * list pystr)")
+    allowed = crec.get("allowed_scopes")
+    cmap = crec.get("scopes_to_claims")
+    cl_t = "(Some (mkClient %s %s %s %s))" % (cbs_t, cal_t, "None" if allowed is None else "(Some %s)" % coq_list([coq_str(x) for x in allowed], "pystr"),
+                                             "None" if cmap is None else "(Some %s)" % coq_scope_map(cmap))
+    return "%s, %s, %s" % (coq_scope_map(cctx.scopes_handler._scopes_to_claims), mod_t, cl_t)
+
+
+def downscoped_tokens(ctx, rng, n):
+    """Tokens whose OWN scope is narrower than the scope of the grant they belong to, presented at every release point.
+    History per grant: authorization (code flow, offline_access) -> token endpoint [T0: token scope = grant scope, the control]
+    -> refresh with a narrower scope [T1] -> refresh of that refresh token with a still narrower scope [T2] -> refresh of the
+    latest refresh token without a scope parameter [T3] -> token exchange of T0's access token with a narrower scope [X0] ->
+    token exchange of T1's (already down-scoped) access token without / with a scope parameter [X1].
+    Every access token obtained is presented to userinfo and to introspection (by its client), decoded when it is a JWT; every
+    ID Token minted along with it is decoded.  Oracle: the user attributes shown lie within release_bound(configuration,
+    scope of THAT token, claims request).  Correspondence: they equal, as a set, the model's release_tok for that token scope."""
+    import drv_C05
+    users = json.load(open(srv.USERS))
+    cases = []
+    for i in range(n):
+        jwt = i % 2 == 0
+        over = {}
+        for c in sess.CLIENTS:
+            o = {}
+            if rng.random() < 0.4:
+                o["add_claims"] = {"always": {p: rng.sample(CLAIMS[:8], rng.randint(0, 2)) for p in rng.sample(POINTS, rng.randint(0, 4))},
+                                   "by_scope": ({p: rng.random() < 0.7 for p in POINTS} if rng.random() < 0.7 else {})}
+            if rng.random() < 0.2:
+                o["scopes_to_claims"] = {"openid": ["sub"], "email": ["email"], "profile": ["nickname", "name"], "phone": ["phone_number", "address"],
+                                         "address": ["address"], "offline_access": []}
+            over[c] = o
+        old = sess.FIXED_AUTHZ
+        sess.FIXED_AUTHZ = drv_C05.EXCH_AUTHZ      # access tokens may mint (token exchange)
+        try:
+            rs = sess.RealSession(oidc=True, jwt_access=jwt, client_over=copy.deepcopy(over))
+        finally:
+            sess.FIXED_AUTHZ = old
+        try:
+            cfg = {}
+            for point in POINTS:
+                mod = module_of(rs.server, point)
+                mod.kwargs["add_claims_by_scope"] = rng.random() < 0.8
+                mod.kwargs["always_add_claims"] = rng.sample(CLAIMS[:8], rng.randint(0, 1))
+                mod.kwargs["enable_claims_per_client"] = rng.random() < 0.4
+                if rng.random() < 0.3:
+                    bc = rng.choice(CLAIMS[:8])
+                    mod.kwargs["base_claims"] = {bc: gen_spec(rng, users["diana"], bc)}
+                cfg[point] = {k: mod.kwargs.get(k) for k in ("add_claims_by_scope", "always_add_claims", "enable_claims_per_client", "base_claims")}
+            ui_ep, ie = rs.ep["userinfo"], rs.ep["introspection"]
+            for flow in range(2):
+                c = rng.choice(sess.CLIENTS)
+                u = rng.choice(["diana", "babs", "dian"])
+                crec = rs.ctx.cdb[c]
+                pool = [x for x in crec.get("allowed_scopes", sess.SCOPES_KNOWN) if x not in ("openid", "offline_access")]
+                gscope = ["openid"] + rng.sample(pool, min(len(pool), rng.randint(2, 4))) + ["offline_access"]
+                rng.shuffle(gscope)
+                req_claims = {}
+                if rng.random() < 0.5:
+                    for p in rng.sample(["userinfo", "id_token"], rng.randint(1, 2)):
+                        req_claims[p] = {x: gen_spec(rng, users[u], x) for x in rng.sample(CLAIMS[:8], rng.randint(1, 2))}
+                o = rs.run(("authz", u, c, gscope, "code", {"claims": req_claims} if req_claims else {}))
+                if o[0] != "ok" or not o[1]:
+                    ctx.notes.append("downscoped_tokens: authz failed %r" % (o,))
+                    continue
+                gi = rs.tok_grant[o[1][0]]
+                grant = rs.grants[gi][1]
+                grant_scope = list(grant.scope)
+                presented = []          # (how, access token index, id token index or None, scope asked for)
+
+                def refresh(rt, scope, how):
+                    r = rs.run(("rparse", c, ("tok", rt), scope))
+                    if r[0] != "ok":
+                        ctx.count("downscoped:%s:refused" % how)
+                        return None
+                    p = rs.run(("proc", len(rs.parsed) - 1, None))
+                    if p[0] != "ok" or "access_token" not in p[1]:
+                        ctx.count("downscoped:%s:refused" % how)
+                        return None
+                    presented.append((how, p[1]["access_token"], p[1].get("id_token"), scope))
+                    return p[1]
+
+                def exchange(at, scope, how):
+                    body = {"grant_type": drv_C05.TE, "subject_token": rs.tokens[at], "subject_token_type": drv_C05.TT + "access_token"}
+                    if scope is not None:
+                        body["scope"] = " ".join(scope)
+                    resp, err = drv_C05.token_call(rs, c, body)
+                    rs.find_new_grants()
+                    rs.harvest()
+                    if not resp or resp.get("access_token") not in rs.tokens:
+                        ctx.count("downscoped:%s:refused" % how)
+                        return None
+                    presented.append((how, rs.tokens.index(resp["access_token"]), None, scope))
+                    return resp
+
+                def narrower(sc, keep_refresh=True):
+                    """a proper subset of sc that keeps openid mostly and, when asked, offline_access"""
+                    rest = [x for x in sc if x not in ("openid", "offline_access")]
+                    k = rng.randint(0, max(0, len(rest) - 1))
+                    sub = rng.sample(rest, k)
+                    if "openid" in sc and rng.random() < 0.85:
+                        sub.append("openid")
+                    if "offline_access" in sc and keep_refresh:
+                        sub.append("offline_access")
+                    rng.shuffle(sub)
+                    return sub
+
+                rs.run(("tparse", c, ("tok", o[1][0]), "same"))
+                p0 = rs.run(("proc", len(rs.parsed) - 1, None))
+                if p0[0] != "ok":
+                    ctx.notes.append("downscoped_tokens: code exchange failed %r" % (p0,))
+                    continue
+                t0 = p0[1]
+                presented.append(("code", t0["access_token"], t0.get("id_token"), None))
+                t1 = refresh(t0["refresh_token"], narrower(grant_scope), "refresh-narrower") if "refresh_token" in t0 else None
+                t2 = None
+                if t1 and "refresh_token" in t1:
+                    s1 = list(rs.tokobj[t1["access_token"]].scope)
+                    t2 = refresh(t1["refresh_token"], narrower(s1), "refresh-of-refresh-narrower")
+                last = next((t for t in (t2, t1, t0) if t and "refresh_token" in t), None)
+                if last:
+                    refresh(last["refresh_token"], None, "refresh-without-scope-after")
+                exchange(t0["access_token"], narrower(grant_scope, keep_refresh=False), "exchange-narrower")
+                if t1:
+                    s1 = list(rs.tokobj[t1["access_token"]].scope)
+                    exchange(t1["access_token"], None if rng.random() < 0.5 else narrower(s1, keep_refresh=False), "exchange-of-downscoped")
+
+                for how, at, idt, asked in presented:
+                    tobj = rs.tokobj[at]
+                    tscope = list(tobj.scope)
+                    tg = rs.grants[rs.tok_grant[at]]
+                    holder = tg[3]
+                    views, scopes_of = {}, {}
+                    try:
+                        r = ui_ep.process_request(ui_ep.parse_request({}, http_info={"headers": {"authorization": "Bearer " + rs.tokens[at]}}))
+                        ra = r.get("response_args", r) if isinstance(r, dict) else r
+                        if "error" not in ra:
+                            views["userinfo"] = dict(ra)
+                            scopes_of["userinfo"] = tscope
+                    except Exception as e:
+                        ctx.count("downscoped:userinfo-crash:%s" % type(e).__name__)
+                    try:
+                        ir = dict(ie.process_request(ie.parse_request(rs._token_req(holder, {"token": rs.tokens[at]})))["response_args"])
+                        if ir.get("active"):
+                            views["introspection"] = ir
+                            scopes_of["introspection"] = tscope
+                    except Exception as e:
+                        ctx.count("downscoped:introspection-crash:%s" % type(e).__name__)
+                    if jwt:
+                        views["access_token"] = jwt_payload(rs.tokens[at])
+                        scopes_of["access_token"] = tscope
+                    if idt is not None and idt >= 0:
+                        views["id_token"] = jwt_payload(rs.tokens[idt])
+                        scopes_of["id_token"] = list(rs.tokobj[idt].scope)
+                    rel = "equal" if set(tscope) == set(tg[1].scope) else "narrower" if set(tscope) < set(tg[1].scope) else "other"
+                    rec = {"downscoped": True, "how": how, "user": u, "client": holder, "grant_scope": list(tg[1].scope), "scope_asked_for": asked,
+                           "token_scope": tscope, "token_scope_vs_grant": rel, "claims_request": req_claims, "config": cfg,
+                           "client_policy": {k: rs.ctx.cdb[holder].get(k) for k in ("add_claims", "allowed_scopes", "scopes_to_claims")},
+                           "jwt_access_token": jwt,
+                           "released": {k: sorted(x for x in v if x in users[u] and x not in PROTOCOL) for k, v in views.items()}}
+                    ctx.case_seen(rec, any(rec["released"].values()))
+                    ctx.count("downscoped:%s:%s" % (how, rel))
+                    uvals = {k: v for k, v in users[u].items() if k not in PROTOCOL}
+                    for point, payload in views.items():
+                        psc = scopes_of[point]
+                        attrs = {k for k in payload if k in uvals}
+                        b = release_bound(rs.server, point, holder, psc, req_claims)
+                        ctx.count("downscoped-view:%s:%s" % (point, rel))
+                        if attrs - b:
+                            ctx.violation("beyond-presented-token-scope",
+                                          "%s for a token with scope %r (grant scope %r, obtained by %s) contains %r beyond the bound %r of that token's scope"
+                                          % (point, psc, list(tg[1].scope), how, sorted(attrs - b), sorted(b)), dict(rec, point=point))
+                        for k in attrs:
+                            if payload[k] != uvals[k]:
+                                ctx.violation("released-not-users-value", "%s released %s=%r, user has %r" % (point, k, payload[k], uvals[k]), dict(rec, point=point))
+                        # ---- model case: release_tok with the token's scope and the grant's scope as separate arguments
+                        term = "(%s, %s, %s, (Some %s), %s, %s, %s, %s)" % (
+                            coq_release_config(rs.server, point, holder), coq_str(point), coq_str(""),
+                            coq_list([coq_str(x) for x in psc], "pystr"), coq_list([coq_str(x) for x in tg[1].scope], "pystr"),
+                            coq_restriction(req_claims.get(point) or {}),
+                            coq_list(["(%s, %s)" % (coq_str(k), coq_pyval(v)) for k, v in uvals.items()], "(pystr * pyval)"),
+                            coq_list(["(%s, %s)" % (coq_str(k), coq_pyval(payload[k])) for k in payload if k in uvals], "(pystr * pyval)"))
+                        cases.append((term, dict(rec, point=point)))
+        finally:
+            rs.close()
+    ctx.coq_check_cases(["Lib.Base", "Lib.PyStr", "Model.Claims"], "release_tok_case", "chk_release_tok", cases, shard=120, label="release_tok",
+                        diag="diag_release_tok")
+
+
 def browser_session_flows(ctx, rng):
     """A later authorization request from the same browser (the provider's session cookie is presented) releases what
     ITS OWN scope and claims parameter authorise - not what an earlier request of that browser session asked for."""
@@ -480,6 +744,8 @@ def run(ctx):
     e2e(ctx, ctx.rng, 3 if ctx.quick else 40)
     exchange_policy(ctx, ctx.rng)
     browser_session_flows(ctx, ctx.rng)
+    unit_cases(ctx, ctx.rng, 240 if ctx.quick else 6000, tok=True)
+    downscoped_tokens(ctx, ctx.rng, 6 if ctx.quick else 60)
 
 
 def replay(ctx, rp):
